@@ -805,7 +805,9 @@ class Fxp():
                 val = np.array([int(v) for v in _val_obj.flatten()], dtype=object).reshape(_val_obj.shape)    # (NumPy integers among them included)
 
         if vdtype is None:
-            vdtype = val.dtype
+            # (a list of NumPy unsigned integers reads as integers, like an array of them: as the value type, uint64 would wrap
+            # negative results of the value method)
+            vdtype = int if val.dtype.kind == 'u' else val.dtype
         
         # scaling conversion (a raw value is a code already: it is not converted, but the object stays a scaled one)
         self.scaled = False
